@@ -23,7 +23,8 @@ RULE = ("scenarios: file accessor (deep/flat x gzip/no-gzip) with 2 chunks "
         "+ info pre-stored, operation under test in {write a new chunk, "
         "overwrite a chunk, overwrite a chunk stored with the other "
         "compression, store_file octet-stream / json, read_chunk, "
-        "fetch_file, file_exists present/absent}, raw and "
+        "fetch_file, file_exists present/absent; read_chunk with a stale .gz "
+        "form of the chunk lying next to the current plain file}, raw and "
         "compressed_segmentation; sharded accessor (in-memory / on-disk "
         "buffers x raw/gzip) with one shard pre-written, operation in "
         "{write + close a new shard, rewrite + close the existing shard, "
@@ -90,6 +91,12 @@ def file_scenarios():
                 for op in ops:
                     out.append({"kind": "file", "flat": flat, "gzip": gz,
                                 "encoding": enc, "op": op})
+    # reading a chunk whose older .gz form was left next to the current
+    # plain file
+    for flat in (False, True):
+        out.append({"kind": "file", "flat": flat, "gzip": False,
+                    "encoding": "raw", "op": "read",
+                    "stale_gz_sibling": True})
     return out
 
 
@@ -203,6 +210,16 @@ def setup(d, scn):
             else:
                 pio.write_chunk(arr(cc, 1, dt), KEY, cc)
             model[cc] = [arr(cc, 1, dt)]
+        if scn.get("stale_gz_sibling"):
+            # what an interrupted "store again, uncompressed" leaves behind:
+            # the new plain chunk AND the older .gz form of the same chunk
+            # (readers prefer the plain file)
+            import gzip
+            rel = ("%d-%d_%d-%d_%d-%d" if scn["flat"]
+                   else "%d-%d/%d-%d/%d-%d") % A
+            with gzip.open(os.path.join(d, KEY, rel + ".gz"), "wb") as f:
+                f.write(arr(A, 0, dt).astype(
+                    np.dtype(dt).newbyteorder("<")).tobytes())
         model[C] = [None]
         pio.accessor.store_file("mesh/old", b"OLD" * 20)
         model["mesh/old"] = [b"OLD" * 20]
